@@ -255,6 +255,24 @@ class Env:
                     run_fn()
         return body
 
+    def make_routine(self, cls, func):
+        """a Routine, or an instance of a Routine SUBCLASS of the library whose body is the same script: its overridden
+        play/resume/stop/reset must obey the same transition table"""
+        if cls == 'routine':
+            return Routine(func)
+        if cls == 'esp':
+            from sc3.seq.eventstream import EventStreamPlayer, EventStreamCleanup
+
+            class NoStream:
+                def reset(self): pass
+
+                def next(self, inval=None): raise StopStream
+            r = EventStreamPlayer.__new__(EventStreamPlayer)
+            Routine.__init__(r, func)            # the script is the body; everything else is EventStreamPlayer's
+            r._stream, r._event, r._is_muted, r._cleanup = NoStream(), dict(), False, EventStreamCleanup()
+            return r
+        raise ValueError(cls)
+
     def num(self, x):
         fr = Fraction(x)
         if fr.denominator != 1:
@@ -367,7 +385,7 @@ class Env:
         self.cells = [FlowVar() if k == 'flow' else Condition() for k in case['cells']]
         self.routines = [None] * len(case['defs'])
         for i, d in enumerate(case['defs']):
-            self.routines[i] = Routine(self.make_func(i, d))
+            self.routines[i] = self.make_routine(d.get('cls', 'routine'), self.make_func(i, d))
         obs = []
         for op in case['ops']:
             if op[0] == 'tick':
